@@ -259,14 +259,22 @@ def run_several_sources(ctx, out):
     d0 = ctx.work.fresh("c01multi")
     k = 0
     for driver in ("parfile", "parblock"):
-        for shape in ("dirs-T-same-names", "dirs-same-names", "dirs-T-distinct", "files-same-basename", "files-distinct", "dir-and-file"):
+        for shape in ("dirs-T-same-names", "dirs-same-names", "dirs-T-distinct", "files-same-basename", "files-distinct", "dir-and-file", "odd-names"):
             for w in ((1, 4) if not quick else (rng.choice([1, 4]),)):
                 k += 1
                 d = os.path.join(d0, "m%d" % k)
                 os.makedirs(os.path.join(d, "dest"))
                 mk = lambda rel, n, tag: (os.makedirs(os.path.dirname(os.path.join(d, rel)), exist_ok=True),
                                            open(os.path.join(d, rel), "wb").write(bytes([tag]) * n))
-                if shape.startswith("dirs"):
+                if shape == "odd-names":
+                    # names that are not UTF-8 (twins differing in one such byte), below the operand and in nested directories
+                    db = os.fsencode(d)
+                    for rel, n, tag in ((b"a/rec\xff.dat", 70000, 65), (b"a/rec\xfe.dat", 70001, 66), (b"a/caf\xe9/inner\xc0/leaf", 3000, 67),
+                                        (b"a/caf\xc3\xa9/leaf", 3001, 68), (b"a/plain", 10, 69)):
+                        os.makedirs(os.path.dirname(os.path.join(db, rel)), exist_ok=True)
+                        open(os.path.join(db, rel), "wb").write(bytes([tag]) * n)
+                    srcs, flags = ["a"], ["-r"]
+                elif shape.startswith("dirs"):
                     mk("a/f", 3 * (1 << 20) + 1, 65); mk("a/sub/g", 5000, 66); mk("a/only_a", 100, 67)
                     if "distinct" in shape:
                         mk("b/h", 1 << 20, 68); mk("b/sub/i", 7000, 69)
